@@ -220,9 +220,12 @@ func (c *Ctx) ruleDerive() {
 // Taggable walk the classification and operation come from the same
 // PointerTag whose pointer located the value; for bare string / slice payloads
 // the classification is the constant "secret".
-func (c *Ctx) ruleTagPair() {
+func (c *Ctx) ruleTagPair() { c.ruleTagPairAs("C09.tagpair") }
+
+// ruleTagPairAs: the same rule under C10's name (a value classified with another field's
+// or another type's tag is redacted although it is public).
+func (c *Ctx) ruleTagPairAs(rule string) {
 	p, r := c.P, c.R
-	const rule = "C09.tagpair"
 	n := 0
 	for _, f := range c.encryptReach() {
 		tb := p.NewTerms(nil)
@@ -2436,11 +2439,12 @@ func listingName(t *Term) *Term {
 		return nil
 	}
 	dir, name := t.Args[0].Args[0], t.Args[0].Args[1]
-	if dir.String() != "Field[Path](Param(0:fs))" || !name.Is("Call", "invoke os.DirEntry.Name") || len(name.Args) == 0 || name.Args[0].Op != "Index" {
+	if !isSinkDir(dir) || !name.Is("Call", "invoke os.DirEntry.Name") || len(name.Args) == 0 || name.Args[0].Op != "Index" {
 		return nil
 	}
+	ds := dir.String()
 	if name.Args[0].Args[0].Find(func(x *Term) bool {
-		return x.Is("Call", "os.ReadDir") && len(x.Args) == 1 && x.Args[0].String() == "Field[Path](Param(0:fs))"
+		return x.Is("Call", "os.ReadDir") && len(x.Args) == 1 && x.Args[0].String() == ds
 	}) == nil {
 		return nil
 	}
@@ -3683,6 +3687,18 @@ func (c *Ctx) ruleNilElem(rule string) {
 			if !ok {
 				return
 			}
+			if m, isM := isValueMethod(&call.Call); isM && m == "MapIndex" {
+				// the zero Value for a key that is not in the map — or not equal to itself (a NaN key
+				// taken from MapKeys): same obligation as for Elem()
+				ot := shortStr(p.NewTerms(nil).Of(call.Call.Args[1]).String(), 60)
+				construct := p.ShortFn(f) + ":MapIndex(" + ot + ")"
+				if fd := search(f, call, in.Block(), instrIndex(in)+1, 0, map[*ssa.Function]bool{f: true}); fd != nil {
+					r.Bad(rule, construct, p.InstrPos(fd.at), "the result of MapIndex() at "+p.InstrPos(in)+" is the zero Value for a key that cannot be looked up (a NaN key of a map[float64]…), and "+fd.why+" on a path with no validity test in between: such a map makes Process panic instead of returning an error")
+				} else {
+					r.Ok(rule, construct, p.InstrPos(in), "every path to a method that panics on the zero Value passes a validity test first")
+				}
+				return
+			}
 			if m, isM := isValueMethod(&call.Call); !isM || m != "Elem" {
 				return
 			}
@@ -3799,7 +3815,7 @@ func (c *Ctx) ruleRotatedName() {
 		r.Und(rule, "isRotatedName", "", "function isRotatedName not found")
 		return
 	}
-	n, ok := 0, true
+	n, ok, okRoom := 0, true, true
 	for _, pa := range c.enum(rule, fn, PathOpts{}) {
 		rv := pa.RetVals()
 		if len(rv) != 1 {
@@ -3825,6 +3841,34 @@ func (c *Ctx) ruleRotatedName() {
 			if at.Op == "eq" && at.Neg && at.R.Is("Const", "0") && at.L.Is("Call", "builtin len") && strings.Contains(at.L.String(), "Param(1:name)") {
 				nonEmpty = true
 			}
+		}
+		// the name holds prefix and suffix one after the other: len(prefix)+len(suffix) < len(name)
+		// (or <=) was established — without it the two may overlap (x.l-og has the prefix x.l- and
+		// the suffix .l-og), and the slice that cuts the stamp out panics with low > high
+		room, strict := false, false
+		for _, at := range pa.Atoms {
+			if at.Op != "lt" {
+				continue
+			}
+			isSum := func(t *Term) bool {
+				return t.Op == "Bin" && t.Name == "+" && len(t.Args) == 2 && t.Args[0].Is("Call", "builtin len") && t.Args[1].Is("Call", "builtin len")
+			}
+			isLenName := func(t *Term) bool {
+				return t.Is("Call", "builtin len") && len(t.Args) == 1 && t.Args[0].IsParam("1:name")
+			}
+			if !at.Neg && isSum(at.L) && isLenName(at.R) { // sum < len(name)
+				room, strict = true, true
+			}
+			if at.Neg && isLenName(at.L) && isSum(at.R) { // !(len(name) < sum)
+				room = true
+			}
+		}
+		if strict {
+			nonEmpty = true
+		}
+		if has("strings.HasPrefix") && has("strings.HasSuffix") && !room && okRoom {
+			okRoom = false
+			r.Bad(rule, "isRotatedName:no-overlap", p.InstrPos(pa.End), "isRotatedName can answer true for a name in which the pattern's prefix and suffix overlap (no test that the name is at least as long as both together): the slice that cuts out the stamp then has low > high and pruning panics inside Process at the first rotation — a foreign file x.l-og next to a sink named x.l.l-og")
 		}
 		if !(has("strings.HasPrefix") && has("strings.HasSuffix") && nonEmpty) && ok {
 			ok = false
@@ -3874,6 +3918,9 @@ func (c *Ctx) ruleRotatedName() {
 	}
 	if ok {
 		r.Check(n > 0, rule, "isRotatedName", p.Pos(fn.Pos()), fmt.Sprintf("%d accepting paths: prefix, suffix, non-empty stamp; all-digit loop", n), "isRotatedName never answers true")
+	}
+	if okRoom && n > 0 {
+		r.Ok(rule, "isRotatedName:no-overlap", p.Pos(fn.Pos()), "every accepting path established that the name is long enough for prefix and suffix side by side")
 	}
 }
 
@@ -4897,4 +4944,661 @@ func (c *Ctx) ruleCopyLengths(rule string) {
 	if n < 4 {
 		r.Und(rule, "copy-length:instance-floor", "", fmt.Sprintf("only %d sized copies found in package encrypt (salt and info in hmacSha256 and in the rotation arm of Process expected)", n))
 	}
+}
+
+// ruleOverrideVerbatim (C09.defaults snapshot:verbatim / option:verbatim): the operation
+// overrides reach the tag decision exactly as configured. The per-event snapshot
+// (copyFilterOperationOverrides) stores, for every key of Filter.FilterOperationOverrides,
+// the value the range produced, and the option constructor stores the map it was given.
+// An unrecognised override must arrive at filterValue's switch unchanged, where it is an
+// error (the event is not forwarded): a snapshot that "normalises" it to the empty
+// operation turns a misconfigured class into plaintext.
+func (c *Ctx) ruleOverrideVerbatim(rule string) {
+	p, r := c.P, c.R
+	if fn := c.Fn(rule, PkgEncrypt, "Filter", "copyFilterOperationOverrides"); fn != nil {
+		tb := p.NewTerms(nil)
+		n := 0
+		eachInstr(fn, func(in ssa.Instruction) {
+			mu, ok := in.(*ssa.MapUpdate)
+			if !ok {
+				return
+			}
+			n++
+			fromRange := func(v ssa.Value, idx int) bool {
+				ex, ok := v.(*ssa.Extract)
+				if !ok || ex.Index != idx {
+					return false
+				}
+				nx, ok := ex.Tuple.(*ssa.Next)
+				if !ok {
+					return false
+				}
+				rg, ok := nx.Iter.(*ssa.Range)
+				if !ok {
+					return false
+				}
+				return strings.Contains(tb.Of(rg.X).String(), "Field[FilterOperationOverrides]")
+			}
+			r.Check(fromRange(mu.Key, 1) && fromRange(mu.Value, 2), rule, "snapshot:verbatim", p.InstrPos(in),
+				"the snapshot stores each configured override under its own class, as configured",
+				"the snapshot of the operation overrides stores "+shortStr(tb.Of(mu.Value).String(), 100)+" under "+shortStr(tb.Of(mu.Key).String(), 60)+" instead of the configured (class, operation) pair: an override the filter does not recognise no longer fails the event in filterValue — the class is forwarded in plaintext or under another operation")
+		})
+		if n == 0 {
+			// no element-wise copy: the result has to be a library clone of the field
+			okAll := true
+			for _, ret := range Returns(fn) {
+				for _, v := range RetVals(ret) {
+					t := tb.Of(v)
+					if isNilConst(v) {
+						continue
+					}
+					if !(t.Op == "Call" && strings.HasSuffix(t.Name, "maps.Clone") && len(t.Args) == 1 && strings.Contains(t.Args[0].String(), "Field[FilterOperationOverrides]")) {
+						okAll = false
+					}
+				}
+			}
+			r.Check(okAll, rule, "snapshot:verbatim", p.Pos(fn.Pos()), "the snapshot is a clone of the configured overrides", "copyFilterOperationOverrides neither copies the configured overrides element by element nor clones them")
+		}
+	}
+	if fn := c.Fn(rule, PkgEncrypt, "", "withFilterOperations"); fn != nil {
+		n := 0
+		for _, cl := range fn.AnonFuncs {
+			eachInstr(cl, func(in ssa.Instruction) {
+				st, ok := in.(*ssa.Store)
+				if !ok {
+					return
+				}
+				fa, ok := st.Addr.(*ssa.FieldAddr)
+				if !ok || fieldName(fa) != "withFilterOperations" {
+					return
+				}
+				n++
+				val := st.Val
+				if u, isU := val.(*ssa.UnOp); isU && u.Op == token.MUL {
+					val = u.X // captured by reference: the load of the captured variable
+				}
+				fv, isFV := val.(*ssa.FreeVar)
+				okV := isFV && len(fn.Params) == 1 && len(cl.FreeVars) >= 1 && fv.Name() == fn.Params[0].Name()
+				r.Check(okV, rule, "option:verbatim", p.InstrPos(in), "the option hands the given overrides to the tag decision", "withFilterOperations stores something other than the map it was given")
+			})
+		}
+		if n == 0 {
+			r.Und(rule, "option:verbatim", p.Pos(fn.Pos()), "no store of the overrides option found")
+		}
+	}
+}
+
+// fieldName: the name of the struct field a FieldAddr selects.
+func fieldName(fa *ssa.FieldAddr) string {
+	pt, ok := fa.X.Type().Underlying().(*types.Pointer)
+	if !ok {
+		return ""
+	}
+	st, ok := pt.Elem().Underlying().(*types.Struct)
+	if !ok || fa.Field >= st.NumFields() {
+		return ""
+	}
+	return st.Field(fa.Field).Name()
+}
+
+// ruleEveryElement (C09.every / C10.every): the element walkers of package encrypt
+// handle EVERY element of what they iterate over: a loop over tags, fields, slice
+// elements or map keys is left before its last element only with an error. A path
+// that leaves such a loop from its body (return or break) and ends in a nil error
+// abandons the remaining elements — tags that are never applied (their values are
+// then swept as unclassified: public ones redacted, C10) or fields never filtered
+// (plaintext, C09).
+func (c *Ctx) ruleEveryElement(rule string) {
+	p, r := c.P, c.R
+	walkers := []struct{ recv, name string }{
+		{"Filter", "filterTaggable"}, {"Filter", "filterSlice"}, {"Filter", "filterField"},
+		{"trackedMaps", "processUnfiltered"}, {"trackedMaps", "unfiltered"},
+	}
+	nLoops := 0
+	for _, w := range walkers {
+		fn := p.Method(PkgEncrypt, w.recv, w.name)
+		if fn == nil || fn.Blocks == nil {
+			if w.name != "unfiltered" {
+				r.Und(rule, "anchor:"+w.name, "", "walker "+w.name+" cannot be resolved")
+			}
+			continue
+		}
+		r.SawFn(p.ShortFn(fn))
+		hdrs := loopHeaders(fn)
+		loops := map[*ssa.BasicBlock]map[*ssa.BasicBlock]bool{}
+		for h := range hdrs {
+			set := naturalLoop(h)
+			// a loop that handles nothing (no call that can fail: a search for an index,
+			// a copy) may be left early
+			handles := false
+			for b := range set {
+				for _, in := range b.Instrs {
+					if ci, isCall := in.(ssa.CallInstruction); isCall {
+						if sig := ci.Common().Signature(); sig != nil && sig.Results().Len() > 0 && typeShort(sig.Results().At(sig.Results().Len()-1).Type()) == "error" {
+							handles = true
+						}
+					}
+				}
+			}
+			if !handles {
+				continue
+			}
+			loops[h] = set
+			nLoops++
+		}
+		if len(loops) == 0 {
+			continue
+		}
+		reported := map[string]bool{}
+		for _, pa := range c.enum(rule, fn, PathOpts{}) {
+			rv := pa.RetVals()
+			if rv == nil || len(rv) == 0 {
+				continue
+			}
+			ev := rv[len(rv)-1]
+			if !isNilConst(ev) {
+				continue
+			}
+			for i := 0; i+1 < len(pa.Blocks); i++ {
+				a, b := pa.Blocks[i], pa.Blocks[i+1]
+				if a.Parent() != fn || b.Parent() != fn {
+					continue
+				}
+				for h, set := range loops {
+					if set[a] && !set[b] && a != h {
+						key := fmt.Sprintf("%s:early-success:loop@%d", w.name, h.Index)
+						if reported[key] {
+							continue
+						}
+						reported[key] = true
+						pos := p.InstrPos(pa.End)
+						if len(a.Instrs) > 0 {
+							pos = p.InstrPos(a.Instrs[len(a.Instrs)-1])
+						}
+						r.Bad(rule, w.name+":early-success", pos, "the loop of "+w.name+" is left from its body and the function reports success: the remaining elements (tags, fields, values) are never handled — values they classify are swept as unclassified or leave untouched ("+shortStr(p.PathSummary(pa), 200)+")")
+					}
+				}
+			}
+		}
+		if len(reported) == 0 {
+			r.Ok(rule, w.name+":early-success", p.Pos(fn.Pos()), fmt.Sprintf("%d loop(s): every successful path leaves each loop at its header (after the last element)", len(loops)))
+		}
+	}
+	if nLoops < 6 {
+		r.Und(rule, "every:instance-floor", "", fmt.Sprintf("only %d element loops found in the walkers of package encrypt (6 confirmed by hand)", nLoops))
+	}
+}
+
+// naturalLoop: the blocks of the natural loop(s) with header h — h and every block
+// that reaches a back edge into h without passing through h.
+func naturalLoop(h *ssa.BasicBlock) map[*ssa.BasicBlock]bool {
+	set := map[*ssa.BasicBlock]bool{h: true}
+	var work []*ssa.BasicBlock
+	for _, t := range h.Preds {
+		if t == h || h.Dominates(t) {
+			if !set[t] {
+				set[t] = true
+				work = append(work, t)
+			}
+		}
+	}
+	for len(work) > 0 {
+		b := work[len(work)-1]
+		work = work[:len(work)-1]
+		for _, q := range b.Preds {
+			if !set[q] {
+				set[q] = true
+				work = append(work, q)
+			}
+		}
+	}
+	return set
+}
+
+// ruleRejectLeavesState (C16.atomic all-or-nothing / C18.sig reject-before-store): a
+// call that REJECTS what it was given — it returns an error — has not replaced any of
+// the fields it guards: no path stores one of the named fields of the receiver and then
+// ends in a non-nil error. A rotation that reports failure after it stored the new salt
+// but kept the old wrapper leaves key material that was never in force; a Rotate(nil)
+// that answers "missing signer" after it stored nil switches signing off.
+func (c *Ctx) ruleRejectLeavesState(rule string, fn *ssa.Function, recvType string, fields []string) {
+	p, r := c.P, c.R
+	if fn == nil {
+		return
+	}
+	want := map[string]bool{}
+	for _, f := range fields {
+		want[f] = true
+	}
+	nStorePaths := 0
+	reported := map[string]bool{}
+	errIdx, hasErr := returnsError(fn.Signature)
+	for _, pa := range c.enum(rule, fn, PathOpts{}) {
+		var stored []Step
+		for _, s := range pa.Steps {
+			if s.Depth != 0 || s.Deferred {
+				continue
+			}
+			st, ok := s.In.(*ssa.Store)
+			if !ok {
+				continue
+			}
+			fa, ok := st.Addr.(*ssa.FieldAddr)
+			if !ok || typeShort(fa.X.Type()) != recvType || isFresh(fa.X) || !want[fieldName(fa)] {
+				continue
+			}
+			stored = append(stored, s)
+		}
+		if len(stored) == 0 {
+			continue
+		}
+		nStorePaths++
+		if !hasErr {
+			continue
+		}
+		rv := pa.RetVals()
+		if rv == nil || errIdx >= len(rv) || isNilConst(rv[errIdx]) {
+			continue
+		}
+		for _, s := range stored {
+			nm := fieldName(s.In.(*ssa.Store).Addr.(*ssa.FieldAddr))
+			key := p.ShortFn(fn) + ":store-then-error:" + nm
+			if reported[key] {
+				continue
+			}
+			reported[key] = true
+			r.Bad(rule, key, p.InstrPos(s.In), nm+" is replaced on a path that then returns an error ("+shortStr(pa.TermsAt(pa.LastStep()).Of(rv[errIdx]).String(), 100)+"): the caller is told the change was refused, yet part of it is in force — "+shortStr(p.PathSummary(pa), 160))
+		}
+	}
+	if len(reported) == 0 {
+		if nStorePaths == 0 {
+			r.Und(rule, p.ShortFn(fn)+":store-then-error", p.Pos(fn.Pos()), "no path stores any of "+strings.Join(fields, ", ")+" (anchor lost)")
+		} else {
+			r.Ok(rule, p.ShortFn(fn)+":store-then-error", p.Pos(fn.Pos()), fmt.Sprintf("%d storing paths: none of them ends in an error", nStorePaths))
+		}
+	}
+}
+
+// isSinkDir: t names a directory of the sink — fs.Path itself, or the directory the
+// active file lives in when the configured FileName carries a directory part:
+// Dir(Join(fs.Path, fs.FileName)) or Join(fs.Path, Dir(fs.FileName)).
+func isSinkDir(t *Term) bool {
+	return t.String() == "Field[Path](Param(0:fs))" || isActiveFileDir(t)
+}
+
+func isActiveFileDir(t *Term) bool {
+	const path, name = "Field[Path](Param(0:fs))", "Field[FileName](Param(0:fs))"
+	join2 := func(x *Term) (a, b *Term, ok bool) {
+		if !x.Is("Call", "path/filepath.Join") || len(x.Args) != 1 || x.Args[0].Op != "Varargs" || len(x.Args[0].Args) != 2 {
+			return nil, nil, false
+		}
+		return x.Args[0].Args[0], x.Args[0].Args[1], true
+	}
+	if t.Is("Call", "path/filepath.Dir") && len(t.Args) == 1 {
+		if a, b, ok := join2(t.Args[0]); ok && a.String() == path && b.String() == name {
+			return true
+		}
+	}
+	if a, b, ok := join2(t); ok && a.String() == path && b.Is("Call", "path/filepath.Dir") && len(b.Args) == 1 && b.Args[0].String() == name {
+		return true
+	}
+	return false
+}
+
+// ruleCloseClearsHandle (C15.prune <fn>:close-clears-handle): wherever a FileSink method
+// closes the sink's file, the handle is dropped (fs.f = nil, or replaced) on EVERY path
+// that follows — also the one on which Close reported an error. A closed *os.File left
+// in fs.f makes open() return early: every later write re-enters the due rotation, closes
+// the closed file again and fails, so the sink neither rotates nor writes until someone
+// calls Reopen (reopen() drops the handle first; rotate() has to agree with its sibling).
+func (c *Ctx) ruleCloseClearsHandle(rule string) {
+	p, r := c.P, c.R
+	n := 0
+	for _, fn := range p.FuncsIn(PkgRoot) {
+		if fn.Signature.Recv() == nil || typeShort(fn.Signature.Recv().Type()) != "eventlogger.FileSink" {
+			continue
+		}
+		tb := p.NewTerms(nil)
+		isHandle := func(addr ssa.Value) bool {
+			b, ok := tb.Of(addr).IsFieldAddr("f")
+			return ok && b.IsParam("0:fs")
+		}
+		for _, cl := range callsTo(fn, func(nm string, cc *ssa.CallCommon) bool { return nm == "(*os.File).Close" }) {
+			if _, isDefer := cl.(*ssa.Defer); isDefer {
+				continue
+			}
+			ld, ok := cl.Common().Args[0].(*ssa.UnOp)
+			if !ok || !isHandle(ld.X) {
+				continue
+			}
+			n++
+			var bad ssa.Instruction
+			seen := map[*ssa.BasicBlock]bool{}
+			var walk func(b *ssa.BasicBlock, from int)
+			walk = func(b *ssa.BasicBlock, from int) {
+				for i := from; i < len(b.Instrs); i++ {
+					switch x := b.Instrs[i].(type) {
+					case *ssa.Store:
+						if isHandle(x.Addr) {
+							return
+						}
+					case *ssa.Return:
+						if bad == nil {
+							bad = x
+						}
+						return
+					}
+				}
+				for _, s := range b.Succs {
+					if !seen[s] {
+						seen[s] = true
+						walk(s, 0)
+					}
+				}
+			}
+			walk(cl.Block(), instrIndex(cl)+1)
+			pos := p.InstrPos(cl)
+			why := ""
+			if bad != nil {
+				why = "after fs.f.Close() the method can return at " + p.InstrPos(bad) + " with the closed handle still in fs.f: open() then returns early, every later write closes the closed file again in rotate and fails — the due rotation never happens and nothing is written until an explicit Reopen"
+			}
+			r.Check(bad == nil, rule, p.ShortFn(fn)+":close-clears-handle", pos, "the closed handle is dropped on every path after Close, also when Close failed", why)
+		}
+	}
+	if n < 2 {
+		r.Und(rule, "close-clears-handle:instance-floor", "", fmt.Sprintf("only %d closes of the sink's file found in FileSink methods (rotate and reopen expected)", n))
+	}
+}
+
+// ruleMakeSizes (C03.private make-size): no allocation reachable from Send can panic on
+// its size: every make(chan T, n) and make([]T, n[, m]) in package eventlogger takes a
+// size that is a non-negative constant or the length / capacity of something. A size
+// read from a counter that other calls adjust (a pipeline count decremented by every
+// removal, also one that removed nothing) can go negative, and Send then panics with
+// "makechan: size out of range" in the caller's goroutine, whatever the context.
+func (c *Ctx) ruleMakeSizes(rule string) {
+	p, r := c.P, c.R
+	n := 0
+	var okSizeD func(v ssa.Value, d int, seen map[ssa.Value]bool) bool
+	okSizeD = func(v ssa.Value, d int, seen map[ssa.Value]bool) bool {
+		v = stripConv(v)
+		if seen[v] {
+			return true // a counter carried round a loop: decided by its other edges
+		}
+		seen[v] = true
+		if k, ok := v.(*ssa.Const); ok {
+			if i, isInt := constInt(k); isInt {
+				return i >= 0
+			}
+			return false
+		}
+		if lenArg(v) != nil {
+			return true
+		}
+		switch x := v.(type) {
+		case *ssa.Call:
+			if b, isB := x.Call.Value.(*ssa.Builtin); isB && (b.Name() == "len" || b.Name() == "cap") {
+				return true
+			}
+			// a helper of the repository all of whose results are such sizes
+			if sc := x.Call.StaticCallee(); sc != nil && p.InRepo(sc) && sc.Blocks != nil && d < 2 {
+				for _, ret := range Returns(sc) {
+					rv := RetVals(ret)
+					if len(rv) != 1 || !okSizeD(rv[0], d+1, map[ssa.Value]bool{}) {
+						return false
+					}
+				}
+				return true
+			}
+		case *ssa.Phi:
+			for _, e := range x.Edges {
+				if !okSizeD(e, d, seen) {
+					return false
+				}
+			}
+			return true
+		case *ssa.BinOp:
+			if x.Op == token.ADD || x.Op == token.MUL {
+				return okSizeD(x.X, d, seen) && okSizeD(x.Y, d, seen)
+			}
+		}
+		return false
+	}
+	okSize := func(v ssa.Value) bool { return okSizeD(v, 0, map[ssa.Value]bool{}) }
+	for _, f := range p.FuncsIn(PkgRoot) {
+		tb := p.NewTerms(nil)
+		eachInstr(f, func(in ssa.Instruction) {
+			var sizes []ssa.Value
+			what := ""
+			switch x := in.(type) {
+			case *ssa.MakeChan:
+				sizes, what = []ssa.Value{x.Size}, "make(chan)"
+			case *ssa.MakeSlice:
+				sizes, what = []ssa.Value{x.Len, x.Cap}, "make([]T)"
+			default:
+				return
+			}
+			n++
+			for _, s := range sizes {
+				if s == nil {
+					continue
+				}
+				r.Check(okSize(s), rule, p.ShortFn(f)+":make-size", p.InstrPos(in), what+" with a constant or length-derived size",
+					what+" is sized with "+shortStr(tb.Of(s).String(), 100)+", which is not a non-negative constant or a length: if it can be negative the allocation panics (makechan / makeslice: size out of range) inside a Broker call")
+			}
+		})
+	}
+	if n < 2 {
+		r.Und(rule, "make-size:instance-floor", "", fmt.Sprintf("only %d sized allocations found in package eventlogger (the status channel and the node list of RegisterPipeline expected)", n))
+	}
+}
+
+// ruleRotationApplies (C16.atomic …:rotation-applied:<field>): key material that a
+// rotation brings IS taken: on every path of Rotate and of the rotation arm of Process
+// on which the new wrapper / salt / info was found non-nil, the corresponding field of
+// the Filter is stored. A rotation that keeps the old wrapper under some further
+// condition — "same key id", "already announced" — leaves every later event under the
+// old key although the rotation was consumed.
+func (c *Ctx) ruleRotationApplies(rule string) {
+	p, r := c.P, c.R
+	fieldOfSource := func(t *Term) string {
+		if t.Op == "Call" {
+			switch {
+			case strings.HasSuffix(t.Name, "RotateWrapper.Wrapper"):
+				return "Wrapper"
+			case strings.HasSuffix(t.Name, "RotateWrapper.HmacSalt"):
+				return "HmacSalt"
+			case strings.HasSuffix(t.Name, "RotateWrapper.HmacInfo"):
+				return "HmacInfo"
+			}
+		}
+		switch {
+		case t.Is("Field", "withWrapper"):
+			return "Wrapper"
+		case t.Is("Field", "withSalt"):
+			return "HmacSalt"
+		case t.Is("Field", "withInfo"):
+			return "HmacInfo"
+		}
+		return ""
+	}
+	for _, name := range []string{"Rotate", "Process"} {
+		fn := c.Fn(rule, PkgEncrypt, "Filter", name)
+		if fn == nil {
+			continue
+		}
+		seenField := map[string]bool{}
+		reported := map[string]bool{}
+		for _, pa := range c.enum(rule, fn, PathOpts{}) {
+			if _, isRet := pa.End.(*ssa.Return); !isRet {
+				continue
+			}
+			brought := map[string]bool{}
+			for _, at := range pa.Atoms {
+				if at.Op == "eq" && at.Neg && at.R.Is("Const", "nil") {
+					if f := fieldOfSource(at.L); f != "" {
+						brought[f] = true
+					}
+				}
+			}
+			if len(brought) == 0 {
+				continue
+			}
+			stored := map[string]bool{}
+			for _, s := range pa.Steps {
+				if st, ok := s.In.(*ssa.Store); ok {
+					if fa, ok := st.Addr.(*ssa.FieldAddr); ok && typeShort(fa.X.Type()) == "encrypt.Filter" {
+						stored[fieldName(fa)] = true
+					}
+				}
+			}
+			// only paths that report the rotation as done
+			rv := pa.RetVals()
+			if len(rv) > 0 && !isNilConst(rv[len(rv)-1]) && typeShort(rv[len(rv)-1].Type()) == "error" {
+				continue
+			}
+			for f := range brought {
+				seenField[f] = true
+				if !stored[f] && !reported[f] {
+					reported[f] = true
+					r.Bad(rule, p.ShortFn(fn)+":rotation-applied:"+f, p.InstrPos(pa.End), "the rotation brought a new "+f+" (found non-nil on this path) and the call ends without storing it: every later event is still protected under the old "+f+" although the rotation was accepted — "+shortStr(p.PathSummary(pa), 200))
+				}
+			}
+		}
+		for _, f := range []string{"Wrapper", "HmacSalt", "HmacInfo"} {
+			if !seenField[f] {
+				r.Und(rule, p.ShortFn(fn)+":rotation-applied:"+f, p.Pos(fn.Pos()), "no path found on which a new "+f+" is tested against nil")
+			} else if !reported[f] {
+				r.Ok(rule, p.ShortFn(fn)+":rotation-applied:"+f, p.Pos(fn.Pos()), "every path that found a new "+f+" stores it")
+			}
+		}
+	}
+}
+
+// ruleFormatReaders (C19.table readers): the format table of the one Event shared by all
+// pipelines of a Send is READ only by sinks. A formatter, filter or other inner node that
+// looks at what is already stored under a format (to skip its own work, say) makes its
+// output depend on how far ANOTHER pipeline has got — and the private copy the encrypt
+// filter takes inherits whatever the other pipeline stored, so the redacted pipeline's
+// sink can write the other pipeline's plain rendering. Who-may-call: every call of
+// (*Event).Format, and every direct read of Event.Formatted outside package eventlogger's
+// own accessors, lies in a method of a type whose Type() is the sink constant.
+func (c *Ctx) ruleFormatReaders(rule string) {
+	p, r := c.P, c.R
+	isSinkType := func(fn *ssa.Function) (bool, string) {
+		root := fn
+		for root.Parent() != nil {
+			root = root.Parent()
+		}
+		recv := root.Signature.Recv()
+		if recv == nil {
+			return false, "a plain function"
+		}
+		ts := typeShort(recv.Type())
+		parts := strings.SplitN(ts, ".", 2)
+		if len(parts) != 2 {
+			return false, ts
+		}
+		var tm *ssa.Function
+		for _, f := range p.Funcs {
+			if f.Name() == "Type" && f.Signature.Recv() != nil && typeShort(f.Signature.Recv().Type()) == ts && f.Blocks != nil && f.Synthetic == "" {
+				tm = f
+			}
+		}
+		if tm == nil {
+			return false, ts + " (no Type method)"
+		}
+		for _, ret := range Returns(tm) {
+			rv := RetVals(ret)
+			sink := p.SSAPkgs[PkgRoot].Const("NodeTypeSink")
+			v, ok := constInt(rv[0])
+			if len(rv) != 1 || !ok || sink == nil || v != sink.Value.Int64() {
+				return false, ts + " (not a sink)"
+			}
+		}
+		return true, ts
+	}
+	n := 0
+	for _, f := range p.RepoFuncs() {
+		eachInstr(f, func(in ssa.Instruction) {
+			ci, ok := in.(ssa.CallInstruction)
+			if !ok {
+				return
+			}
+			if calleeName(ci.Common()) != "(*eventlogger.Event).Format" {
+				return
+			}
+			n++
+			ok2, who := isSinkType(f)
+			r.Check(ok2, rule, p.ShortFn(f)+":reads-format-table", p.InstrPos(in), "the format table is read by a sink ("+who+")",
+				"(*Event).Format is called by "+who+", which is not a sink: what an inner node finds in the shared format table depends on how far the other pipelines of the same Send have got, so its result (and what the sinks behind it write) is decided by another pipeline's formatting")
+		})
+	}
+	if n < 2 {
+		r.Und(rule, "reads-format-table:instance-floor", "", fmt.Sprintf("only %d calls of (*Event).Format found (FileSink and writer.Sink expected)", n))
+	}
+}
+
+// ruleTaggableFieldAlways (C09.handlers filterField:taggable-field-unconditional, also
+// C10): a struct field (or slice element) that the field walk found to implement
+// Taggable has its tags applied before it is walked or tracked as a plain struct / map —
+// whatever options the walk was called with. The walk of a Taggable STRUCT passes
+// "ignore taggable" to the walk of that struct's own fields; if that option also
+// switches off the Taggable arm for those fields, a Taggable map (or struct) held by a
+// Taggable struct is handled as an untagged one: its public values are redacted and
+// the operations its tags ask for are replaced by redaction.
+func (c *Ctx) ruleTaggableFieldAlways(rule string) {
+	p, r := c.P, c.R
+	fn := c.Fn(rule, PkgEncrypt, "Filter", "filterField")
+	if fn == nil {
+		return
+	}
+	nPos := 0
+	var bad *Path
+	var badAt ssa.Instruction
+	for _, pa := range c.enum(rule, fn, PathOpts{}) {
+		if _, isRet := pa.End.(*ssa.Return); !isRet {
+			continue
+		}
+		// first positive Taggable assertion on the path
+		first := -1
+		for _, at := range pa.Atoms {
+			if at.Op == "true" && !at.Neg && at.If != nil && strings.Contains(at.L.String(), "Assert[encrypt.Taggable]") {
+				if i := stepIndex(pa, at.If); first < 0 || i < first {
+					first = i
+				}
+			}
+		}
+		if first < 0 {
+			continue
+		}
+		nPos++
+		applied := false
+		for i, s := range pa.Steps {
+			if i < first || s.Depth != 0 {
+				continue
+			}
+			ci, ok := s.In.(ssa.CallInstruction)
+			if !ok {
+				continue
+			}
+			switch calleeName(ci.Common()) {
+			case "(*filters/encrypt.Filter).filterTaggable":
+				applied = true
+			case "(*filters/encrypt.Filter).filterField", "(*filters/encrypt.trackedMaps).trackMap":
+				if !applied && bad == nil {
+					bad, badAt = pa, s.In
+				}
+			}
+		}
+	}
+	if nPos == 0 {
+		r.Und(rule, "filterField:taggable-field-unconditional", p.Pos(fn.Pos()), "no path of filterField on which a field was found Taggable")
+		return
+	}
+	if bad != nil {
+		r.Bad(rule, "filterField:taggable-field-unconditional", p.InstrPos(badAt), "a field (or element) found to implement Taggable is walked / tracked as a plain value on a path on which filterTaggable was not applied to it: a Taggable map or struct held by a Taggable struct loses its tags (public values redacted, encrypt / hmac tags replaced by redaction) — "+shortStr(p.PathSummary(bad), 260))
+		return
+	}
+	r.Ok(rule, "filterField:taggable-field-unconditional", p.Pos(fn.Pos()), fmt.Sprintf("%d paths with a Taggable field: tags applied before the plain walk on each", nPos))
 }
